@@ -376,7 +376,7 @@ func c20Plan(c *C20Case) ([]byte, error) {
 // Oracle
 
 type c20Fail struct {
-	path string // api | tf
+	path string // fake | tf | api | api-cache
 	kind string // dict acl backend shield director header resp snippet include other
 	name string
 	sig  string // parse | mismatch | count | extra | fetch
@@ -1511,6 +1511,38 @@ func c20Classify(c *C20Case, col *iso.Collector) {
 	if c.Layout.ForceSSL == 2 {
 		lab("kind:request-setting-force-ssl")
 	}
+	if c.Layout.API {
+		lab("path:api")
+		lab(fmt.Sprintf("api:version-%d", c.apiVersion()))
+		if c.Layout.Cache {
+			lab("api:cache-round-trip")
+		}
+		for _, d := range c.Dicts {
+			if d.WriteOnly {
+				lab("api:write-only-dictionary")
+			}
+		}
+		for _, s := range c.Snips {
+			if s.Dynamic {
+				lab("api:dynamic-snippet")
+			}
+		}
+		for _, a := range c.Acls {
+			for _, e := range a.Entries {
+				switch {
+				case e.Subnet == nil:
+					lab("api:subnet-null")
+				case *e.Subnet == 0:
+					lab("api:subnet-0")
+				default:
+					lab("api:subnet-n")
+				}
+				if e.Neg {
+					lab("api:negated")
+				}
+			}
+		}
+	}
 	if c.Layout.V1 {
 		lab("tf:service-v1")
 	}
@@ -1553,7 +1585,7 @@ func checkC20(raw json.RawMessage) iso.Result {
 	// (i) fake Fetcher
 	{
 		cc := c // EmbedSnippets mutates the resources it is given; each path gets its own copy
-		fails = append(fails, c20RunPath(&cc, "api", func() (snippet.Fetcher, error) { return &c20Fetcher{c: &cc}, nil })...)
+		fails = append(fails, c20RunPath(&cc, "fake", func() (snippet.Fetcher, error) { return &c20Fetcher{c: &cc}, nil })...)
 	}
 	// (ii) Terraform plan
 	plan, err := c20Plan(&c)
@@ -1574,12 +1606,17 @@ func checkC20(raw json.RawMessage) iso.Result {
 		return f, nil
 	})...)
 
+	// (iii) falco's Fastly API client over a fake api.fastly.com (c20_api.go)
+	if c.Layout.API {
+		fails = append(fails, c20RunAPI(&c)...)
+	}
+
 	for _, f := range fails {
 		col.FailKey(c20KnownKey(&c, f), "[%s path] %s", f.path, f.msg)
 	}
 	col.Count("resources", len(c.Dicts)+len(c.Acls)+len(c.Backends)+len(c.Directors)+len(c.Headers)+len(c.Resps)+len(c.Snips))
 
-	// (iii) CLI, sampled in the thorough tier
+	// (iv) CLI, sampled in the thorough tier
 	if c.Layout.CLI && os.Getenv("VERIF_FALCO") != "" {
 		c20CLI(col, &c, plan, len(fails) == 0)
 	}
